@@ -26,7 +26,7 @@ from gridrv.oracles import datafiles
 PROP = "C17"
 TITLE = "Closed-form Coulomb potentials of Gaussian densities are exact everywhere"
 REQUIRED_HOOKS = ["coulomb.coulomb_gaussian_s", "coulomb.coulomb_gaussian_p", "coulomb.coulomb_potential", "coulomb.load_atomic_gaussian_params", "coulomb.load_atomic_gaussian_params:raised"]
-REQUIRED_FAMILIES = ["pinned-p-witness", "pinned-multicentre-p-witness", "single-grid", "single-sweep", "quadrature", "multi-centre", "atomic-core", "load", "load-reject", "load-history", "buffer-reuse"]
+REQUIRED_FAMILIES = ["pinned-p-witness", "pinned-multicentre-p-witness", "single-grid", "single-sweep", "quadrature", "multi-centre", "atomic-core", "load", "load-reject", "load-history", "buffer-reuse", "near-coincident-centres"]
 BUDGET = {"quick": 600, "thorough": 3600}  # idle 16-core expectation: ~8 s / ~75 s per worker; generous because the machine may be heavily shared
 RULE = (
     "Post-conditions on coulomb_gaussian_s/p, coulomb_potential and load_atomic_gaussian_params evaluate every call against an "
@@ -45,12 +45,16 @@ RULE = (
     "interleaved with other calls: each result must be bit-identical to the result for fresh copies of the current values, must not share "
     "memory with arguments or earlier results, and earlier results must stay unchanged. Argument forms: float64/float32/integer-dtype "
     "(int16..uint64, incl. radii >= 2^32) arrays, Python int lists, N-D radii (points x centres distance matrices with entries on the "
-    "centre), read-only, Fortran-ordered and strided views. One case = one "
+    "centre), read-only, Fortran-ordered and strided views; near-coincident-centres = degenerate but admissible geometry of the multi-centre "
+    "routine: clusters of centres that coincide exactly, differ by 1 ulp, or by 1e-12..1e-4 absolute/relative, at the origin, at |c|~1 and "
+    "at |c|~1e3, with exponents up to 1e18 chosen so that sqrt(alpha) x separation ~ 1 and evaluation points on and within a few "
+    "1/sqrt(alpha) of every centre; cluster members consecutive, reversed, shuffled or separated by far centres, and split between "
+    "centers_s and centers_p in every way (all s, all p, contiguous split, random assignment). One case = one "
     "parameter set (non-trivial when at least one oracle evaluation was made on a real library result)."
 )
 ASSUMPTIONS = [
     "documented density = the rho(r) formulas in the docstrings of coulomb_gaussian_s / coulomb_gaussian_p; potential = (1/r) int_0^r 4 pi s^2 rho + int_r^inf 4 pi s rho",
-    "exponents 1e-4 <= alpha <= 1e6 are decided; for alpha >~ 1e13 the fixed 1e-12 switch radius is no longer small against 1/sqrt(alpha) - recorded as an observation, not decided",
+    "exponents 1e-4 <= alpha <= 1e6 are decided at all radii; exponents up to 1e18 (near-coincident-centres family) are decided only at radii that are 0 or >= the documented 1e-12 switch radius: for alpha >~ 1e13 that fixed radius is no longer small against 1/sqrt(alpha) - recorded as an observation, not decided",
     "admissible element requests = symbols in any letter case and Python/NumPy integers, as the docstring of load_atomic_gaussian_params says",
     "float64 reference validated at start-up against 40-digit quadrature (closed form 1e-30) and against the mp closed form on 1500 hostile points (2e-15)",
 ]
@@ -133,6 +137,8 @@ def cases(tier, seed):
         out.append(("load-history", {"k": k}, 1.0))
     for k in range(100 if q else 1800):
         out.append(("buffer-reuse", {"target": ["potential", "potential", "potential", "s", "p"][k % 5], "k": k}, 3.0))
+    for k in range(160 if q else 3000):
+        out.append(("near-coincident-centres", {"normalized": bool(k % 2), "where": ["origin", "unit", "far"][(k // 2) % 3], "k": k}, 2.0))
     out.append(("extreme-alpha-observation", {}, 1.0))
     return out
 
@@ -592,6 +598,118 @@ def _buffer_reuse_single(ctx, gc, rng, kind):
     ctx.case_note("history", done)
 
 
+def _unit(rng, n=None):
+    u = rng.normal(size=(3,) if n is None else (n, 3))
+    return u / np.linalg.norm(u, axis=-1, keepdims=True)
+
+
+def _near_coincident(ctx, gc, rng, params):
+    """Clusters of (nearly) coincident centres with exponents that resolve their separation."""
+    nrm = params["normalized"]
+    funcs = []  # (cluster id, centre, alpha, coeff)
+    seps = []
+    for cl in range(int(rng.integers(1, 4))):
+        where = params["where"] if cl == 0 else ["origin", "unit", "far"][int(rng.integers(0, 3))]
+        c0 = {"origin": np.zeros(3), "unit": rng.uniform(-1, 1, 3), "far": rng.uniform(-1, 1, 3) * 1e3}[where]
+        if where != "origin" and rng.random() < 0.3:
+            c0[int(rng.integers(0, 3))] = 0.0  # a coordinate exactly on an axis plane
+        for j in range(int(rng.integers(2, 6))):
+            mode = "exact" if j == 0 else str(rng.choice(["exact", "ulp", "abs", "abs", "rel", "rel"]))
+            c = c0.copy()
+            if mode == "ulp":
+                i = int(rng.integers(0, 3))
+                c[i] = np.nextafter(c[i], [-np.inf, np.inf][int(rng.integers(0, 2))])
+            elif mode == "abs" or (mode == "rel" and where == "origin"):
+                c = c0 + _unit(rng) * 10.0 ** rng.uniform(-12, -4) * rng.choice([1.0, 1.0, 0.0], 3 if rng.random() < 0.3 else 1)
+            elif mode == "rel":
+                c = c0 * (1.0 + 10.0 ** rng.uniform(-12, -4) * rng.choice([-1.0, 0.0, 1.0], 3))
+            sep = float(np.sqrt(np.sum((c - c0) ** 2)))
+            seps.append(sep)
+            if rng.random() < 0.25:
+                a = float(10.0 ** rng.uniform(-4, 6))
+            elif sep >= SWITCH:
+                a = float(min(1e18, (10.0 ** rng.uniform(-0.5, 0.7) / sep) ** 2))
+            else:  # exactly coincident or closer than the documented switch radius: keep alpha * SWITCH^2 negligible (ASSUMPTIONS)
+                a = float(10.0 ** rng.uniform(2, 10))
+            funcs.append((cl, c, a, float(rng.lognormal(0, 1.5) * rng.choice([-1.0, 1.0]))))
+    far = [(-1, rng.uniform(-3, 3, 3), float(10.0 ** rng.uniform(-4, 6)), float(rng.lognormal(0, 1.5) * rng.choice([-1.0, 1.0]))) for _ in range(int(rng.integers(0, 4)))]
+    order = str(rng.choice(["clusters-contiguous", "reversed", "shuffled", "far-first", "far-in-between", "members-interleaved"]))
+    if order == "clusters-contiguous":
+        seq = funcs + far
+    elif order == "reversed":
+        seq = (funcs + far)[::-1]
+    elif order == "shuffled":
+        seq = funcs + far
+        seq = [seq[i] for i in rng.permutation(len(seq))]
+    elif order == "far-first":
+        seq = far + funcs
+    elif order == "far-in-between":
+        seq = []
+        for i, f in enumerate(funcs):
+            seq.append(f)
+            if far and i % 2 == 1:
+                seq.append(far[(i // 2) % len(far)])
+    else:
+        ncl = 1 + max(f[0] for f in funcs)
+        groups = [[f for f in funcs if f[0] == g] for g in range(ncl)]
+        seq = [g[i] for i in range(max(len(g) for g in groups)) for g in groups if i < len(g)] + far
+    split = str(rng.choice(["all-s", "all-p", "contiguous", "random"]))
+    if split == "all-s":
+        is_p = np.zeros(len(seq), dtype=bool)
+    elif split == "all-p":
+        is_p = np.ones(len(seq), dtype=bool)
+    elif split == "contiguous":
+        is_p = np.arange(len(seq)) >= int(rng.integers(0, len(seq) + 1))
+        if rng.random() < 0.5:
+            is_p = ~is_p
+    else:
+        is_p = rng.random(len(seq)) < 0.5
+
+    def pack(sel):
+        sub = [f for f, q in zip(seq, is_p) if q == sel]
+        return (np.array([f[1] for f in sub]).reshape(-1, 3), np.array([f[3] for f in sub], dtype=float), np.array([f[2] for f in sub], dtype=float))
+
+    cs, cos, als = pack(False)
+    cp, cop, alp = pack(True)
+    # evaluation points: on every centre and within a few widths of it, plus a few ordinary and far ones
+    pts = []
+    for _, c, a, _ in seq:
+        pts.append(c)
+        for t in (0.3, 1.0, 3.0):
+            pts.append(c + _unit(rng) * t / math.sqrt(a))
+    pts = np.array(pts)
+    if len(pts) > 70:
+        pts = pts[np.sort(rng.choice(len(pts), 70, replace=False))]
+    pts = np.concatenate([pts, rng.uniform(-3, 3, (3, 3)), _unit(rng, 2) * np.array([[1e4], [1e7]])])
+    # stay inside the decided domain: no point closer than the switch radius (but not on) a centre whose alpha makes that radius matter
+    keep = np.ones(len(pts), dtype=bool)
+    for _, c, a, _ in seq:
+        if a > 1e10:
+            d = _dist(pts, c)
+            keep &= ~((d > 0) & (d < SWITCH))
+    pts = pts[keep]
+    ctx.case_note("order", order)
+    ctx.case_note("split", split)
+    ctx.case_note("n_functions", len(seq))
+    ctx.case_note("separations", sorted(seps)[:6])
+    ctx.case_note("max_alpha", max(f[2] for f in seq))
+    ctx.count("near-coincident:order:" + order)
+    ctx.count("near-coincident:split:" + split)
+    has_p, has_s = bool(np.any(is_p)), bool(np.any(~is_p))
+    subject = f"coulomb_potential:{'s+p' if has_p else 's-only'}:{_nrm(nrm)}"
+    with ctx.guard(C_ROUTE, subject):
+        if has_p:
+            v = gc.coulomb_potential(pts, cs, cos, als, cp, cop, alp, normalized=nrm)
+            v2 = gc.coulomb_potential(pts, cs[::-1], cos[::-1], als[::-1], cp[::-1], cop[::-1], alp[::-1], normalized=nrm)
+            sc = gc.coulomb_potential(pts, cs, np.abs(cos), als, cp, np.abs(cop), alp, normalized=nrm)
+        else:
+            v = gc.coulomb_potential(pts, cs, cos, als, normalized=nrm)
+            v2 = gc.coulomb_potential(pts, cs[::-1], cos[::-1], als[::-1], normalized=nrm)
+            sc = gc.coulomb_potential(pts, cs, np.abs(cos), als, normalized=nrm)
+        e = np.abs(np.asarray(v) - np.asarray(v2)) / np.where(sc > 0, sc, 1.0)
+        ctx.check(C_ROUTE, subject + ":order-of-functions", float(np.max(e)) if e.size else 0.0, TOL_ROUTE, sig="depends-on-order-of-functions", detail={"order": order, "split": split})
+
+
 def run_case(ctx, family, params):
     gc = _lib()
     rng = ctx.rng
@@ -830,6 +948,8 @@ def run_case(ctx, family, params):
             _buffer_reuse_potential(ctx, gc, rng)
         else:
             _buffer_reuse_single(ctx, gc, rng, params["target"])
+    elif family == "near-coincident-centres":
+        _near_coincident(ctx, gc, rng, params)
     elif family == "extreme-alpha-observation":
         # not decided (ASSUMPTIONS): the switch radius is fixed at 1e-12 whatever alpha
         for a in (1e10, 1e14, 1e18, 1e22):
